@@ -342,6 +342,14 @@ type vgCapRep struct {
 
 func VH_C02_CapRep() { vhC01[vgCapRep](vhNoElide) }
 
+// a non-empty group whose body can produce a value without consuming anything
+type vgNonEmptyCap struct {
+	A string `( @( A? ) @( B? ) )!`
+	T string `@C?`
+}
+
+func VH_C01_NonEmptyCap() { vhC01[vgNonEmptyCap](vhNoElide) }
+
 func VH_C02_Canary() { VH_C01_Canary() }
 
 func VH_C06_Seq()      { vhC06[vgSeq](vhNoElide) }
